@@ -34,7 +34,7 @@ void silk_decode_pitch(opus_int16 lagIndex, opus_int8 contourIndex, opus_int pit
 #endif
 void silk_bwexpander(opus_int16 *ar, const opus_int d, opus_int32 chirp){ for(int i=0;i<16;i++) if(i<d) ar[i]=vt_short(); }
 void harness(void){
-  silk_decoder_state dec; silk_decoder_control ctl; memset(&dec,0,sizeof dec); memset(&ctl,0,sizeof ctl);
+  static silk_decoder_state dec; static silk_decoder_control ctl;   /* zero-initialised statics (a 4 KB memset would need the mem wrapper's block loop) */
   int fs=vt_range(0,2); fs = fs==0?8:fs==1?12:16; int nb=vt_range(0,1)?4:2; int cond=vt_range(0,2);
 #ifdef FIXFS
   __CPROVER_assume(fs==FIXFS && nb==FIXNB);   /* exhaustive case split over (fs, nb_subfr) */
